@@ -205,8 +205,10 @@ def main() -> int:
     ev = {'property_id': prop, 'tier': tier, 'seed': seed, 'level': level, 'coverage': cov,
           'assumptions': list(getattr(mod, 'ASSUMPTIONS', [])), 'wall_s': round(time.time() - ctx.t0, 2),
           'violations': violations}
-    (VERIF / 'evidence').mkdir(exist_ok=True)
-    (VERIF / 'evidence' / f'{prop}.json').write_text(json.dumps(ev, indent=1, default=str))
+    # evidence/ only ever describes runs against /repo itself; runs against a scratch worktree (VERIF_REPO) keep theirs apart
+    evdir = VERIF / 'evidence' if os.environ.get('VERIF_REPO', '/repo') == '/repo' else VERIF / '.work' / 'evidence-scratch'
+    evdir.mkdir(parents=True, exist_ok=True)
+    (evdir / f'{prop}.json').write_text(json.dumps(ev, indent=1, default=str))
     shutil.rmtree(ctx.work, ignore_errors=True)
     for ln in lines:
         print(ln)
